@@ -15,6 +15,7 @@ import (
 
 	"github.com/thought-machine/please/src/core"
 
+	"verifharness/iplib"
 	"verifharness/lib"
 )
 
@@ -400,4 +401,16 @@ func Reenter(root string) {
 	core.RepoRoot = root
 	entered = root
 	enterOnce.Do(func() {})
+}
+
+// Quiet silences Please's logging completely: iplib.Quiet lowers it to errors, and the cache code logs
+// expected conditions (a failed rename during cleaning, a failed upload) at error/warning level, which
+// would otherwise end up in the check's output. Set VERIF_PLZ_VERBOSITY to see the log.
+func Quiet() {
+	if os.Getenv("VERIF_PLZ_VERBOSITY") == "" {
+		if devnull, err := os.OpenFile(os.DevNull, os.O_WRONLY, 0); err == nil {
+			os.Stderr = devnull // the logging backend is created from os.Stderr; panics and race reports use fd 2 directly
+		}
+	}
+	iplib.Quiet()
 }
